@@ -29,7 +29,8 @@ fn gen_source(tape: &[u16], no_trap: bool, pressure: bool) -> Option<String> {
         o.force_pressure = true;
     }
     let prog = catch(|| Gen::program(tape, &o)).ok()?;
-    Some(swaygen::emit_program(&prog, &EmitOpts { mask_shifts: false, no_trap }))
+    let src = swaygen::emit_program(&prog, &EmitOpts { mask_shifts: false, no_trap });
+    crate::c17mut::front_end_is_quick(&src).then_some(src)
 }
 fn abort_class(e: &End) -> &'static str {
     match e {
@@ -64,7 +65,7 @@ pub const SIG07_DEAD_TRAP: &str = "asm-dce-continues-past-arithmetic-abort";
 pub const SUBPASSES: [&str; 7] = ["const_indexing_aggregates_function", "constant_propagate", "dce", "simplify_cfg", "remove_sequential_jumps", "remove_redundant_moves", "remove_redundant_ops"];
 
 fn compile_with_mask(src: &str, lvl: OptLevel, mask: u32) -> Result<Vec<u8>, vcore::fastc::CompileFail> {
-    with_fastc(300, |fc| {
+    with_fastc(80, |fc| {
         verif_hooks::set_asm_opt_skip_mask(mask);
         let r = catch(|| fc.compile(src, lvl));
         verif_hooks::set_asm_opt_skip_mask(0);
@@ -382,7 +383,7 @@ fn c08_eval(tape: &[u16], pressure: bool, rep: &Report) -> Result<(), Fail> {
             let dumps: Rc<RefCell<Vec<Vec<RegAllocOp>>>> = Rc::new(RefCell::new(vec![]));
             let sink = dumps.clone();
             verif_hooks::set_regalloc_observer(Some(Box::new(move |ops| sink.borrow_mut().push(ops.to_vec()))));
-            let r = with_fastc(300, |fc| catch(|| fc.compile(&src, lvl)));
+            let r = with_fastc(80, |fc| catch(|| fc.compile(&src, lvl)));
             verif_hooks::set_regalloc_observer(None);
             match r {
                 Ok(Ok(_)) => {}
